@@ -75,6 +75,7 @@ func cmdDump(args []string) int {
 	obl := fs.String("obl", "", "print the script of obligations whose name contains this")
 	solve := fs.Bool("solve", true, "solve obligations")
 	timeout := fs.Int("timeout", 10, "")
+	focused := fs.Bool("focused", false, "print the focused slice")
 	fs.Parse(args)
 	scratch := mkScratch()
 	defer os.RemoveAll(scratch)
@@ -113,7 +114,7 @@ func cmdDump(args []string) int {
 			for _, o := range rep.Obls {
 				fmt.Printf("  %s  [%s] %s\n", o.Name, strings.Join(o.Props, ","), o.Desc)
 				if *obl != "" && strings.Contains(o.Name, *obl) {
-					fmt.Println(rep.Exec.script(o, false))
+					fmt.Println(rep.Exec.script(o, false, *focused))
 				}
 			}
 		}
